@@ -222,7 +222,7 @@ THEOREMS = ["C40_roundtrip_level0", "C40_roundtrip_ormap", "C40_roundtrip_ormap_
             "C40_decoded_merges_like_original", "C40_key_roundtrip", "C40_unknown_rejected"]
 
 META = {
-    "ready": False,
+    "ready": True,
     "category": "proof",
     "technique": "Rocq proof of decode∘encode over an executable model of the ddata codec + differential round trips through the real codec and protobuf wire format",
     "text": "decode(encode v) = wire form of v (same value, same causal metadata) proved for all values of all seven types incl. nested ORMap; merging the decoded value equals merging the original; keys round-trip with their type; unknown type/oneof and nil rejected.",
